@@ -614,8 +614,11 @@ def conc_histories(ctx, mode, n, race=True, auditfile=False, parts=8, opmix=None
 def audit_concurrent(ctx):
     th = ctx.thorough
     r, st = conc_histories(ctx, "db", 400 if th else 60, race=True, auditfile=True, parts=16 if th else 8)
-    return {"accepted": st["accepted"], "histories": st["histories"], "lines": r["counters"].get("calls", 0),
-            "samples": r.get("samples") or []}
+    # and with a sink that has fsync semantics (a sync covers what was written when it began, and takes a while): when a call
+    # returns, its own record must be covered by a completed sync -- also when other requests' syncs are in flight
+    r2, st2 = conc_histories(ctx, "db", 600 if th else 100, race=True, parts=16 if th else 8)
+    return {"accepted": st["accepted"] + st2["accepted"], "histories": st["histories"] + st2["histories"],
+            "lines": r["counters"].get("calls", 0) + r2["counters"].get("calls", 0), "samples": r.get("samples") or []}
 
 
 def golden_check(ctx):
